@@ -31,6 +31,18 @@ type c09Cfg struct {
 	NoTag int
 }
 
+// another configuration struct handled by an earlier FlagSet in the same process: it shares Go field names with
+// c09Cfg (at other nesting levels), so nothing learnt about it may leak into the FlagSet under test
+type c09OtherSub struct {
+	Count int `flag:"o-sub-count,77,Another count"`
+}
+
+type c09Other struct {
+	Addr string `flag:"o-addr,other:1,Another addr"`
+	Port uint   `flag:"o-port,1,Another port"`
+	DB   c09OtherSub
+}
+
 type c09Field struct {
 	flag, env, kind, def string
 }
@@ -91,7 +103,9 @@ func c09Apply(cfg *c09Cfg, i int) {
 func c09JsonStub(data []byte, p any) error {
 	for i, text := range c09JSON {
 		if string(data) == text {
-			c09Apply(p.(*c09Cfg), i)
+			if c, ok := p.(*c09Cfg); ok {
+				c09Apply(c, i)
+			}
 		}
 	}
 	return nil
@@ -186,6 +200,10 @@ func c09Text(kind string) string {
 }
 
 func H_C09_priority() {
+	var earlier c09Other
+	if of, oerr := NewFlagSet(&earlier); oerr == nil {
+		of.Parse(nil)
+	}
 	fi := vxPick(len(c09Fields))
 	fld := c09Fields[fi]
 	cli, env, js := vxPick(2) == 1, vxPick(2) == 1, vxPick(2) == 1
